@@ -2,10 +2,13 @@ package main
 
 import (
 	"fmt"
+	"go/constant"
 	"go/token"
 	"go/types"
+	"sort"
 	"strconv"
 	"strings"
+	"text/template/parse"
 
 	"golang.org/x/tools/go/ssa"
 )
@@ -17,7 +20,7 @@ import (
 // zeroMakeslice: `make([]T, k)` with constant k is `new [k]T (makeslice)` + slice in go/ssa; the
 // storage is zeroed, which nothing stores explicitly.
 func (e *ssaEval) zeroMakeslice(x *ssa.Alloc, key string) {
-	if x.Comment != "makeslice" {
+	if x.Comment != "makeslice" && !e.arrays {
 		return
 	}
 	zero, n, ok := zeroOfArray(x)
@@ -30,6 +33,51 @@ func (e *ssaEval) zeroMakeslice(x *ssa.Alloc, key string) {
 	for i := int64(0); i < n; i++ {
 		e.mem[fmt.Sprintf("%s[%d]", key, i)] = zero
 	}
+}
+
+// loadArray (arrays mode): the load of a whole small array whose elements are modelled cells is
+// the list of their values (a copy: an array is a value).
+func (e *ssaEval) loadArray(ld *ssa.UnOp, a sv) (sv, bool) {
+	if !e.arrays {
+		return sv{}, false
+	}
+	at, ok := ld.Type().Underlying().(*types.Array)
+	if !ok || at.Len() > 64 {
+		return sv{}, false
+	}
+	el := make([]sv, at.Len())
+	for i := range el {
+		v, ok := e.mem[fmt.Sprintf("%s[%d]", a.s, i)]
+		if !ok {
+			return sv{}, false
+		}
+		el[i] = v
+	}
+	return e.newList(el), true
+}
+
+// storeArray (arrays mode): storing an array value with known elements sets the element cells.
+func (e *ssaEval) storeArray(st *ssa.Store, a, v sv) bool {
+	if !e.arrays || v.k != svList {
+		return false
+	}
+	pt, ok := st.Addr.Type().Underlying().(*types.Pointer)
+	if !ok {
+		return false
+	}
+	at, ok := pt.Elem().Underlying().(*types.Array)
+	el, known := e.elems(v)
+	if !ok || !known || int64(len(el)) != at.Len() {
+		return false
+	}
+	if e.mem == nil {
+		e.mem = map[string]sv{}
+	}
+	for i, x := range el {
+		e.mem[fmt.Sprintf("%s[%d]", a.s, i)] = x
+	}
+	e.effects = append(e.effects, ssaEffect{ins: st, what: "store", args: []sv{v}, addr: a.s})
+	return true
 }
 
 func zeroOfArray(x *ssa.Alloc) (sv, int64, bool) {
@@ -386,7 +434,8 @@ func (c *Ctx) evalWriterData(fn *ssa.Function, format int64, zero bool) ([]tmplE
 	}
 	scalar := func(t types.Type) bool {
 		_, ok := t.Underlying().(*types.Basic)
-		return ok
+		// a point in time is a value like a number (helpers that format it are evaluated in place)
+		return ok || t.String() == "time.Time"
 	}
 	ev.noInline = func(f *ssa.Function) bool {
 		sig := f.Signature
@@ -521,6 +570,10 @@ func (c *Ctx) evalWriterData(fn *ssa.Function, format int64, zero bool) ([]tmplE
 			execs = append(execs, ex)
 			return sv{k: svNil}, true
 		}
+		if n == "(time.Time).IsZero" && len(args) == 1 && isFont(args[0]) {
+			// the cell says whether the font's value is the zero value
+			return boolV(zero), true
+		}
 		return sv{}, false
 	}
 	args := make([]sv, len(fn.Params))
@@ -643,6 +696,14 @@ func (c *Ctx) templateDataFields() {
 			}
 			v, have := r.ex.fields[p.field]
 			ok := have && v.k == svSym && v.s == p.path
+			if !ok && have && typs[p.path].String() == "time.Time" {
+				// a point in time may be handed over as its text in a constant layout (the
+				// formatting the template would do, done beforehand); nothing for the zero time
+				_, ok = timeFormatOf(v, p.path)
+				if zero && v.k == svString && v.s == "" {
+					ok = true
+				}
+			}
 			if wrapped {
 				el, known := r.ex.elems[p.field]
 				ok = known && len(el) == 1 && el[0].k == svSym && el[0].s == p.path
@@ -663,6 +724,45 @@ func (c *Ctx) templateDataFields() {
 			fmt.Sprintf("%s: %s — the file does not say what the font says", p.key, bad))
 	}
 	c.floor(rule, 20)
+}
+
+// timeFormatOf: v is the text of the font's time value `path` in a constant layout —
+// `(time.Time).Format(path, "layout")` as the evaluator records it.
+func timeFormatOf(v sv, path string) (string, bool) {
+	if v.k == svSym && v.op == "(time.Time).Format" && len(v.args) == 2 && v.args[0].k == svSym && v.args[0].s == path && v.args[1].k == svString {
+		return v.args[1].s, true
+	}
+	return "", false
+}
+
+// dateDataField: the field of the template data that carries the font's creation date (the font's
+// field of type time.Time), and the layout if the date is handed over already formatted.
+func (c *Ctx) dateDataField() (field, layout string, found bool) {
+	_, typs := c.fontFieldPaths()
+	execs, why := c.evalWriterData(c.method("type1", "Font", "Write"), c.constInt("type1", "FormatPFA"), false)
+	if why != "" || len(execs) == 0 {
+		return "", "", false
+	}
+	var names []string
+	for name := range execs[0].fields {
+		names = append(names, name)
+	}
+	sort.Strings(names)
+	for _, name := range names {
+		v := execs[0].fields[name]
+		for path, t := range typs {
+			if t.String() != "time.Time" {
+				continue
+			}
+			if v.k == svSym && v.s == path {
+				return name, "", true
+			}
+			if l, ok := timeFormatOf(v, path); ok {
+				return name, l, true
+			}
+		}
+	}
+	return "", "", false
 }
 
 func ev0render(v sv, el []sv) string {
@@ -731,9 +831,19 @@ func (c *Ctx) eexecStream() {
 	newW := c.fn("type1", "newEExecWriter")
 	bufF, posF := c.fld("eexecWriter.buf"), c.fld("eexecWriter.pos")
 
-	// the buffer size is what the constructor allocates
+	// the buffer size is what the constructor allocates, or the length of the array if the buffer
+	// is part of the writer itself
 	B := int64(-1)
-	{
+	weT := c.typeObj("type1", "eexecWriter")
+	bufIsArray := false
+	if st, ok := weT.Type().Underlying().(*types.Struct); ok {
+		for i := 0; i < st.NumFields(); i++ {
+			if at, ok := st.Field(i).Type().Underlying().(*types.Array); ok && st.Field(i).Name() == bufF {
+				B, bufIsArray = at.Len(), true
+			}
+		}
+	}
+	if !bufIsArray {
 		ev := &ssaEval{c: c, bind: map[ssa.Value]sv{}, mem: map[string]sv{}}
 		ev.call = func(call ssa.CallInstruction, args []sv) (sv, bool) {
 			if call != nil && call.Common().StaticCallee() == wr {
@@ -776,6 +886,16 @@ func (c *Ctx) eexecStream() {
 		}
 		ev.mem["we."+bufF] = ev.newList(el)
 		ev.mem["we."+posF] = intV(p0)
+		if bufIsArray {
+			// the array in the writer is the storage itself: its address stands for the elements
+			for _, fn := range c.modFuncs {
+				eachInstr(fn, func(ins ssa.Instruction) {
+					if fa, ok := ins.(*ssa.FieldAddr); ok && isFieldAddr(fa, weT, bufF) {
+						ev.bind[fa] = ev.mem["we."+bufF]
+					}
+				})
+			}
+		}
 		buffered := func() ([]sv, bool) {
 			pos, buf := ev.mem["we."+posF], ev.mem["we."+bufF]
 			all, ok := ev.elems(buf)
@@ -897,4 +1017,585 @@ func (c *Ctx) eexecStream() {
 	}
 	c.check(bad == "", rule, fname, construct, wr.Pos(), fmt.Sprintf("%d cells of (buffered, size of the write) around the buffer size %d evaluated", cells, B),
 		"the eexec stream writer loses or reorders data: "+bad+" — a charstring longer than the buffer is handed over in one call and would be cut, its announced length no longer matching")
+}
+
+// ---------------------------------------------------------------------------------------------
+// Reader side of the key ↔ field tables, on the SSA form (RT-KEYS, RT-FIELDS, RT-DEFAULTS).
+//
+// keyFlows follows the VALUE of every dictionary entry that the reader looks up under a constant
+// key — the key written at the lookup or handed to a helper that performs it (generic or not) —
+// forwards through conversions, type assertions, phis, local cells, element and field stores,
+// ranges, helper calls (context-sensitive: a helper's result goes back to the call it was entered
+// from) until it is stored into a field of one of the exported font structures.  The table
+// `key → asserted types → font field` is read off this flow, so it does not depend on whether the
+// lookup, the assertion and the default are written inline, in a helper, or in a generic helper.
+
+type keyFlow struct {
+	types  map[string]bool // names of the asserted types on the way
+	fields map[string]bool // "FontInfo.X", "PrivateDict.X", "Font.X"
+}
+
+type keyFlower struct {
+	c     *Ctx
+	funcs map[*ssa.Function]bool
+	seen  map[string]bool
+	cur   *keyFlow
+}
+
+// reachFuncs: the module functions reachable from root through static calls and closures.
+func (c *Ctx) reachFuncs(root *ssa.Function, depth int) map[*ssa.Function]bool {
+	out := map[*ssa.Function]bool{}
+	var visit func(f *ssa.Function, d int)
+	visit = func(f *ssa.Function, d int) {
+		if f == nil || f.Blocks == nil || out[f] || d > depth || !c.inModule(f) {
+			return
+		}
+		out[f] = true
+		eachInstr(f, func(ins ssa.Instruction) {
+			switch x := ins.(type) {
+			case ssa.CallInstruction:
+				visit(x.Common().StaticCallee(), d+1)
+			case *ssa.MakeClosure:
+				if g, ok := x.Fn.(*ssa.Function); ok {
+					visit(g, d)
+				}
+			}
+		})
+	}
+	visit(root, 0)
+	return out
+}
+
+func isDictLookup(l *ssa.Lookup) bool {
+	m, ok := l.X.Type().Underlying().(*types.Map)
+	if !ok {
+		return false
+	}
+	if b, ok := m.Key().Underlying().(*types.Basic); !ok || b.Info()&types.IsString == 0 {
+		return false
+	}
+	_, isIface := m.Elem().Underlying().(*types.Interface)
+	return isIface
+}
+
+func shortTypeName(t types.Type) string {
+	if n, ok := t.(*types.Named); ok {
+		return n.Obj().Name()
+	}
+	if p, ok := t.(*types.Pointer); ok {
+		return "*" + shortTypeName(p.Elem())
+	}
+	return t.String()
+}
+
+func paramIndex(p *ssa.Parameter) int {
+	for i, q := range p.Parent().Params {
+		if q == p {
+			return i
+		}
+	}
+	return -1
+}
+
+// readerKeyFlows: key → flow, for type1.Read and everything of the module it calls.
+func (c *Ctx) readerKeyFlows() map[string]*keyFlow {
+	read := c.fn("type1", "Read")
+	kf := &keyFlower{c: c, funcs: c.reachFuncs(read, 3)}
+	out := map[string]*keyFlow{}
+	type site struct {
+		key   string
+		stack []ssa.CallInstruction
+	}
+	// the constant keys a value stands for: a constant, or a parameter with its call sites
+	var keysOf func(v ssa.Value, stack []ssa.CallInstruction, depth int) []site
+	keysOf = func(v ssa.Value, stack []ssa.CallInstruction, depth int) []site {
+		v = origin(v)
+		switch x := v.(type) {
+		case *ssa.Const:
+			if x.Value != nil && x.Value.Kind() == constant.String {
+				return []site{{constant.StringVal(x.Value), stack}}
+			}
+		case *ssa.Convert:
+			return keysOf(x.X, stack, depth)
+		case *ssa.Parameter:
+			if depth > 3 {
+				return nil
+			}
+			idx := paramIndex(x)
+			var res []site
+			for g := range kf.funcs {
+				for _, call := range staticCalls(g, x.Parent()) {
+					if idx >= 0 && idx < len(call.Common().Args) {
+						st := append([]ssa.CallInstruction{call}, stack...)
+						res = append(res, keysOf(call.Common().Args[idx], st, depth+1)...)
+					}
+				}
+			}
+			return res
+		}
+		return nil
+	}
+	var fns []*ssa.Function
+	for f := range kf.funcs {
+		fns = append(fns, f)
+	}
+	sort.Slice(fns, func(i, j int) bool { return fns[i].String() < fns[j].String() })
+	for _, f := range fns {
+		eachInstr(f, func(ins ssa.Instruction) {
+			l, ok := ins.(*ssa.Lookup)
+			if !ok || !isDictLookup(l) {
+				return
+			}
+			for _, s := range keysOf(l.Index, nil, 0) {
+				fl := out[s.key]
+				if fl == nil {
+					fl = &keyFlow{types: map[string]bool{}, fields: map[string]bool{}}
+					out[s.key] = fl
+				}
+				kf.cur = fl
+				kf.seen = map[string]bool{}
+				// the stack built by keysOf is innermost call first
+				if l.CommaOk {
+					kf.tupleElem(l, 0, s.stack)
+				} else {
+					kf.flow(l, s.stack)
+				}
+			}
+		})
+	}
+	return out
+}
+
+func (kf *keyFlower) tupleElem(t ssa.Value, idx int, stack []ssa.CallInstruction) {
+	for _, r := range *t.Referrers() {
+		if ex, ok := r.(*ssa.Extract); ok && ex.Index == idx {
+			kf.flow(ex, stack)
+		}
+	}
+}
+
+// addrPath: root and field path of an address built by FieldAddr steps.
+func addrPath(a ssa.Value) (ssa.Value, string) {
+	path := ""
+	for {
+		fa, ok := a.(*ssa.FieldAddr)
+		if !ok {
+			return a, path
+		}
+		path = fmt.Sprintf(".%d%s", fa.Field, path)
+		a = fa.X
+	}
+}
+
+// cell: the value was stored at addr; it flows to every load of that place.
+func (kf *keyFlower) cell(addr ssa.Value, stack []ssa.CallInstruction) {
+	refs := addr.Referrers()
+	if refs == nil {
+		return
+	}
+	for _, r := range *refs {
+		switch x := r.(type) {
+		case *ssa.UnOp:
+			if x.Op == token.MUL {
+				kf.flow(x, stack)
+			}
+		case *ssa.MakeClosure:
+			if g, ok := x.Fn.(*ssa.Function); ok {
+				for i, b := range x.Bindings {
+					if b == addr && i < len(g.FreeVars) {
+						kf.cell(g.FreeVars[i], stack)
+					}
+				}
+			}
+		case *ssa.IndexAddr:
+			if x.X == addr {
+				kf.cell(x, stack)
+			}
+		case *ssa.Slice:
+			if x.X == addr {
+				kf.flow(x, stack)
+			}
+		}
+	}
+}
+
+func (kf *keyFlower) flow(v ssa.Value, stack []ssa.CallInstruction) {
+	var top ssa.CallInstruction
+	if len(stack) > 0 {
+		top = stack[0]
+	}
+	id := fmt.Sprintf("%p/%p/%d", v, top, len(stack))
+	if kf.seen[id] || len(stack) > 6 {
+		return
+	}
+	kf.seen[id] = true
+	refs := v.Referrers()
+	if refs == nil {
+		return
+	}
+	for _, r := range *refs {
+		switch x := r.(type) {
+		case *ssa.TypeAssert:
+			kf.cur.types[shortTypeName(x.AssertedType)] = true
+			if x.CommaOk {
+				kf.tupleElem(x, 0, stack)
+			} else {
+				kf.flow(x, stack)
+			}
+		case *ssa.Phi, *ssa.Convert, *ssa.ChangeType, *ssa.ChangeInterface, *ssa.MakeInterface, *ssa.Field, *ssa.Range:
+			kf.flow(x.(ssa.Value), stack)
+		case *ssa.Next:
+			kf.tupleElem(x, 2, stack)
+		case *ssa.BinOp:
+			switch x.Op {
+			case token.ADD, token.SUB, token.MUL, token.QUO:
+				kf.flow(x, stack)
+			}
+		case *ssa.UnOp:
+			if x.Op == token.SUB || x.Op == token.MUL {
+				kf.flow(x, stack)
+			}
+		case *ssa.Slice:
+			if x.X == v {
+				kf.flow(x, stack)
+			}
+		case *ssa.Index:
+			if x.X == v {
+				kf.flow(x, stack)
+			}
+		case *ssa.IndexAddr:
+			if x.X == v {
+				kf.flow(x, stack) // the element's address: its loads follow
+			}
+		case *ssa.MapUpdate:
+			if x.Value == v {
+				kf.flow(x.Map, stack)
+			}
+		case *ssa.Store:
+			if x.Val != v {
+				continue
+			}
+			kf.stored(x, stack)
+		case *ssa.Return:
+			for j, res := range x.Results {
+				if res != v {
+					continue
+				}
+				var sites []ssa.CallInstruction
+				var rest []ssa.CallInstruction
+				if len(stack) > 0 {
+					if stack[0].Common().StaticCallee() != x.Parent() {
+						continue
+					}
+					sites, rest = stack[:1], stack[1:]
+				} else {
+					for g := range kf.funcs {
+						sites = append(sites, staticCalls(g, x.Parent())...)
+					}
+				}
+				for _, call := range sites {
+					cv := call.Value()
+					if cv == nil {
+						continue
+					}
+					if len(x.Results) == 1 {
+						kf.flow(cv, rest)
+					} else {
+						kf.tupleElem(cv, j, rest)
+					}
+				}
+			}
+		case ssa.CallInstruction:
+			com := x.Common()
+			if b, ok := com.Value.(*ssa.Builtin); ok {
+				if b.Name() == "append" && x.Value() != nil {
+					kf.flow(x.Value(), stack)
+				}
+				continue
+			}
+			callee := com.StaticCallee()
+			if callee != nil && callee.Blocks != nil && kf.c.inModule(callee) {
+				for i, a := range com.Args {
+					if a == v && i < len(callee.Params) {
+						kf.flow(callee.Params[i], append([]ssa.CallInstruction{x}, stack...))
+					}
+				}
+				continue
+			}
+			// a library function: its result derives from its arguments
+			if cv := x.Value(); cv != nil && !com.IsInvoke() {
+				if _, isTuple := cv.Type().(*types.Tuple); isTuple {
+					kf.tupleElem(cv, 0, stack)
+				} else {
+					kf.flow(cv, stack)
+				}
+			}
+		}
+	}
+}
+
+// stored: where a Store puts the value, and who reads that place.
+func (kf *keyFlower) stored(st *ssa.Store, stack []ssa.CallInstruction) {
+	switch a := st.Addr.(type) {
+	case *ssa.Alloc, *ssa.FreeVar:
+		kf.cell(a, stack)
+	case *ssa.IndexAddr:
+		// an element of a container: the container carries the value
+		switch base := a.X.(type) {
+		case *ssa.Alloc, *ssa.FreeVar:
+			kf.cell(base, stack)
+		default:
+			kf.flow(base, stack)
+			if ld, ok := base.(*ssa.UnOp); ok && ld.Op == token.MUL {
+				kf.cell(ld.X, stack)
+			}
+			if sl, ok := base.(*ssa.Slice); ok {
+				if al, ok := sl.X.(*ssa.Alloc); ok {
+					kf.cell(al, stack)
+				}
+			}
+		}
+	case *ssa.FieldAddr:
+		pt, _ := a.X.Type().Underlying().(*types.Pointer)
+		if pt == nil {
+			return
+		}
+		stT, _ := pt.Elem().Underlying().(*types.Struct)
+		if stT == nil {
+			return
+		}
+		fld := stT.Field(a.Field)
+		if n, ok := pt.Elem().(*types.Named); ok && n.Obj().Exported() && fld.Exported() && n.Obj().Pkg() != nil && strings.HasSuffix(n.Obj().Pkg().Path(), "/type1") {
+			kf.cur.fields[n.Obj().Name()+"."+fld.Name()] = true
+			return
+		}
+		// a local aggregate (a struct instead of parallel locals): the same place is read elsewhere
+		root, path := addrPath(a)
+		fn := st.Parent()
+		scan := func(g *ssa.Function) {
+			eachInstr(g, func(ins ssa.Instruction) {
+				if fa, ok := ins.(*ssa.FieldAddr); ok && fa != a {
+					if r2, p2 := addrPath(fa); r2 == root && p2 == path {
+						kf.cell(fa, stack)
+					}
+				}
+			})
+		}
+		scan(fn)
+		// the whole aggregate loaded as a value and taken apart
+		if refs := root.Referrers(); refs != nil && strings.Count(path, ".") == 1 {
+			for _, r := range *refs {
+				if ld, ok := r.(*ssa.UnOp); ok && ld.Op == token.MUL {
+					for _, r2 := range *ld.Referrers() {
+						if f, ok := r2.(*ssa.Field); ok && f.Field == a.Field {
+							kf.flow(f, stack)
+						}
+					}
+				}
+			}
+		}
+	}
+}
+
+// readerDefaultEval: the value the reader stores into field `key` of the private dictionary
+// structure when the font's dictionaries hold no entry at all.  The function that stores the field
+// is evaluated on the SSA form from the block that first mentions the key (from its entry if the
+// key is looked up elsewhere): every dictionary lookup answers "absent", every type assertion on
+// an absent entry fails, helpers are evaluated in place; the value that reaches the store is the
+// default.  The form of the lookup (inline assertion, helper, generic helper) does not matter.
+func (c *Ctx) readerDefaultEval(key string) (float64, bool) {
+	read := c.fn("type1", "Read")
+	privT := c.typeObj("type1", "PrivateDict")
+	funcs := c.reachFuncs(read, 3)
+	asserted := map[string]types.Type{}
+	var target *ssa.Store
+	nTargets := 0
+	var fns []*ssa.Function
+	for f := range funcs {
+		fns = append(fns, f)
+	}
+	sort.Slice(fns, func(i, j int) bool { return fns[i].Pos() < fns[j].Pos() })
+	for _, f := range fns {
+		eachInstr(f, func(ins ssa.Instruction) {
+			switch x := ins.(type) {
+			case *ssa.TypeAssert:
+				asserted[x.AssertedType.String()] = x.AssertedType
+			case *ssa.Store:
+				if isFieldAddr(x.Addr, privT, key) {
+					nTargets++
+					if target == nil {
+						target = x
+					}
+				}
+			}
+		})
+	}
+	if target == nil || nTargets != 1 {
+		return 0, false
+	}
+	fn := target.Parent()
+	// where the key is first mentioned in fn
+	start := fn.Blocks[0]
+	found := false
+	isKey := func(v ssa.Value) bool {
+		k, ok := origin(v).(*ssa.Const)
+		if cv, isConv := origin(v).(*ssa.Convert); isConv && !ok {
+			k, ok = cv.X.(*ssa.Const)
+		}
+		return ok && k.Value != nil && k.Value.Kind() == constant.String && constant.StringVal(k.Value) == key
+	}
+	for _, b := range fn.Blocks {
+		for _, ins := range b.Instrs {
+			if found {
+				break
+			}
+			switch x := ins.(type) {
+			case *ssa.Lookup:
+				if isKey(x.Index) {
+					start, found = b, true
+				}
+			case ssa.CallInstruction:
+				for _, a := range x.Common().Args {
+					if isKey(a) {
+						start, found = b, true
+					}
+				}
+			}
+		}
+	}
+	ev := &ssaEval{c: c, bind: map[ssa.Value]sv{}, mem: map[string]sv{}, maxDepth: 3}
+	ev.lookup = func(x *ssa.Lookup, m, k sv) (sv, bool) {
+		if !isDictLookup(x) {
+			return sv{}, false
+		}
+		if x.CommaOk {
+			return sv{k: svTuple, tup: []sv{{k: svNil}, boolV(false)}}, true
+		}
+		return sv{k: svNil}, true
+	}
+	ev.call = func(call ssa.CallInstruction, args []sv) (sv, bool) {
+		if call == nil && len(args) == 2 && strings.HasPrefix(args[0].s, "typeassert:") && args[1].k == svNil {
+			z := sv{}
+			if t := asserted[strings.TrimPrefix(args[0].s, "typeassert:")]; t != nil {
+				z, _ = aZeroSV(t)
+			}
+			return sv{k: svTuple, tup: []sv{z, boolV(false)}}, true
+		}
+		return sv{}, false
+	}
+	ev.load = func(ld *ssa.UnOp, addr sv) (sv, bool) { return symV("v:" + addr.s), true }
+	ev.guide = guideTo(target.Block())
+	fr := &frame{vals: map[ssa.Value]sv{}}
+	for i, p := range fn.Params {
+		fr.vals[p] = symV(fmt.Sprintf("p%d", i))
+	}
+	ev.runBlocks(fr, start, nil, func(next, from *ssa.BasicBlock) bool { return from == target.Block() })
+	for _, ef := range ev.effects {
+		if ef.ins == ssa.Instruction(target) && len(ef.args) == 1 {
+			switch ef.args[0].k {
+			case svInt:
+				return float64(ef.args[0].i), true
+			case svFloat:
+				return ef.args[0].f, true
+			}
+		}
+	}
+	return 0, false
+}
+
+// numbersExact (rule W-NUMEXACT): a real number of the font reaches the file as a text that reads
+// back as the same number.  Every action of the template that prints a floating-point value (a
+// field, an element of a collection that is ranged over, a whole array or slice) is decided by
+// how it prints: text/template's own printing and `print` use the shortest text that identifies
+// the float64; a `printf` format is applied (by the analyser, the format is a constant of the
+// template) to numbers that need up to 17 digits and must give them back; a function of the
+// FuncMap is evaluated on the same numbers.
+func (c *Ctx) numbersExact() {
+	const rule = "W-NUMEXACT"
+	const where = "type1 font program template"
+	t := c.fontTemplate()
+	prints := c.tmplPrints()
+	isF := func(t types.Type) bool {
+		b, ok := t.Underlying().(*types.Basic)
+		return ok && b.Info()&types.IsFloat != 0
+	}
+	table := []float64{0, 1, -1, 0.5, -11.5, 0.001, 0.039625, 0.1, -9.46232221, -75.123456789, 16777217, 0.00048828125, 0.0002125565617, 0.0454545455, 1e-5, 123456.789012345, 1.0 / 3, 2.5e-7, 1e21, 4503599627370497}
+	readsBack := func(s string, want []float64) bool {
+		toks := strings.Fields(strings.NewReplacer("[", " ", "]", " ", "{", " ", "}", " ").Replace(s))
+		if len(toks) != len(want) {
+			return false
+		}
+		for i, tok := range toks {
+			if y, err := strconv.ParseFloat(tok, 64); err != nil || y != want[i] {
+				return false
+			}
+		}
+		return true
+	}
+	n := 0
+	for _, it := range t.allItems() {
+		p, ok := prints[it.node]
+		if _, isAct := it.node.(*parse.ActionNode); !ok || !isAct || p.typ == nil {
+			continue
+		}
+		list := false
+		elemT := p.typ
+		switch x := p.typ.Underlying().(type) {
+		case *types.Slice:
+			list, elemT = true, x.Elem()
+		case *types.Array:
+			list, elemT = true, x.Elem()
+		}
+		if !isF(elemT) || len(p.funcs) > 0 && (p.funcs[0] == "len" || p.funcs[0] == "not") {
+			continue
+		}
+		n++
+		construct := "`" + it.action + "` prints the number in a form that reads back as the same number"
+		if named, ok := elemT.(*types.Named); ok {
+			custom := false
+			for _, m := range []string{"String", "Format", "Error"} {
+				if obj, _, _ := types.LookupFieldOrMethod(named, true, named.Obj().Pkg(), m); obj != nil {
+					custom = true
+				}
+			}
+			if custom {
+				c.undecided(rule, where, construct, token.NoPos, "the value prints itself through a method of "+named.Obj().Name()+", which is not evaluated")
+				continue
+			}
+		}
+		var bad []string
+		switch {
+		case len(p.funcs) == 0, len(p.funcs) == 1 && (p.funcs[0] == "print" || p.funcs[0] == "println"):
+			// fmt's %v of a float64: strconv's shortest text that identifies the number
+		case len(p.funcs) == 1 && p.funcs[0] == "printf" && p.fmt != "" && !list:
+			for _, x := range table {
+				if s := fmt.Sprintf(p.fmt, x); !readsBack(s, []float64{x}) {
+					bad = append(bad, fmt.Sprintf("%v is written as %q", x, s))
+				}
+			}
+		case len(p.funcs) == 1 && c.tmplFuncSSA(p.funcs[0]) != nil:
+			f := c.tmplFuncSSA(p.funcs[0])
+			st := c.aInit("type1")
+			for _, x := range table {
+				ev := st.newEval()
+				arg, want := sv{k: svFloat, f: x}, []float64{x}
+				if list {
+					arg, want = ev.newList([]sv{{k: svFloat, f: x}, {k: svFloat, f: -x}}), []float64{x, -x}
+				}
+				ret := ev.runFunc(f, []sv{arg})
+				if len(ret) < 1 || ret[0].k != svString {
+					bad = append(bad, fmt.Sprintf("%s could not be evaluated for %v (%s)", p.funcs[0], x, ev.why))
+					break
+				}
+				if !readsBack(ret[0].s, want) {
+					bad = append(bad, fmt.Sprintf("%v is written as %q", x, ret[0].s))
+				}
+			}
+		default:
+			bad = append(bad, "the number goes through "+strings.Join(p.funcs, " | ")+", whose text is not decided")
+		}
+		c.check(len(bad) == 0, rule, where, construct, token.NoPos, fmt.Sprintf("%d values, up to 17 significant digits", len(table)),
+			"the number "+p.expr+" does not survive being written: "+joinMax(bad, 4)+" — a decoder gets another value than the font has")
+	}
+	c.floor(rule, 6)
 }
